@@ -571,6 +571,63 @@ where
         },
     );
 }
+/// both operands of a product of a *structured* shape - what transforms built from scales, rotations, translations and
+/// projections look like, and what a fast path tests for with exact comparisons: every pair of shapes, generic entries
+/// elsewhere
+fn shape_of<T: Tier, const N: usize>(shape: usize, v: usize) -> [[T; N]; N] {
+    let g: [[T; N]; N] = mat_from_r(&alphabet::generic(N * N, v));
+    let mut m = g;
+    let last = N - 1;
+    for c in 0..N {
+        for r in 0..N {
+            let (zero, one) = (T::zero(), T::one());
+            m[c][r] = match shape {
+                // generic
+                0 => g[c][r],
+                // affine: bottom row 0 .. 0 1, generic linear part and translation
+                1 => if r == last { if c == last { one } else { zero } } else { g[c][r] },
+                // linear part only (an embedded smaller matrix)
+                2 => if r == last || c == last { if r == c { one } else { zero } } else { g[c][r] },
+                // translation only
+                3 => if c == last && r != last { g[c][r] } else if r == c { one } else { zero },
+                // diagonal
+                4 => if r == c { g[c][r] } else { zero },
+                // the identity plus one entry in the bottom row (a one-point perspective)
+                5 => if r == c { one } else if r == last && c + 2 == N { g[c][r] } else { zero },
+                // affine with the bottom-right entry not 1
+                _ => if r == last { if c == last { g[c][r] } else { zero } } else { g[c][r] },
+            };
+        }
+    }
+    m
+}
+fn shapes<T: Tier, M: MatN<T, N>, const N: usize>(rep: &mut Report)
+where
+    M: std::ops::Mul<M, Output = M> + std::ops::Mul<M::V, Output = M::V>,
+{
+    const NS: usize = 7;
+    rep.cases(
+        &format!("shapes/{}", M::NAME),
+        T::NAME,
+        "A and B each of the shapes {generic, affine, linear part only, translation only, diagonal, identity plus one bottom-row entry, affine with another bottom-right entry}: A*B, B*A, (A*B)*v against the model",
+        NS * NS,
+        Guard::states(40).distinct(40),
+        |i, ctx| {
+            let (sa, sb) = (i / NS, i % NS);
+            let (a, b): ([[T; N]; N], [[T; N]; N]) = (shape_of::<T, N>(sa, 0), shape_of::<T, N>(sb, 1));
+            let v: [T; N] = vec_from_r(&alphabet::generic(N, 2));
+            ctx.describe(|| format!("{} shapes ({sa},{sb}): A={:?} B={:?}", M::NAME, a, b));
+            ctx.out(&i);
+            let (ca, cb, cv) = (M::mk(a), M::mk(b), M::V::mk(v));
+            let (ma, mb, mv) = (lift_m(a), lift_m(b), lift_v(v));
+            let mab = model::mmul(ma, mb);
+            eq_m::<T, N>(ctx, &key("shapes/A*B"), (ca * cb).arr(), mab);
+            eq_m::<T, N>(ctx, &key("shapes/B*A"), (cb * ca).arr(), model::mmul(mb, ma));
+            eq_v::<T, N>(ctx, &key("shapes/(A*B)*v"), ((ca * cb) * cv).arr(), model::mvec(mab, mv));
+            eq_v::<T, N>(ctx, &key("shapes/A*(B*v)"), (ca * (cb * cv)).arr(), model::mvec(ma, model::mvec(mb, mv)));
+        },
+    );
+}
 fn all_float<T: Tier + Dom<M = Sh>>(rep: &mut Report) {
     near_special::<T, Matrix2<T>, 2>(rep);
     near_special::<T, Matrix3<T>, 3>(rep);
@@ -590,6 +647,9 @@ fn all<T: Tier>(rep: &mut Report) {
     magnitudes::<T, Matrix2<T>, 2>(rep);
     magnitudes::<T, Matrix3<T>, 3>(rep);
     magnitudes::<T, Matrix4<T>, 4>(rep);
+    shapes::<T, Matrix2<T>, 2>(rep);
+    shapes::<T, Matrix3<T>, 3>(rep);
+    shapes::<T, Matrix4<T>, 4>(rep);
     ring::<T, Matrix2<T>, 2>(rep);
     ring::<T, Matrix3<T>, 3>(rep);
     ring::<T, Matrix4<T>, 4>(rep);
